@@ -39,9 +39,11 @@ class Loader:
                     if ap.startswith(L) and a.kind == "Struct" and ap in t and any("*mut u8" in x for x in a.field_types().values()):
                         dl.append(n)
                         self.record_adt = a
-        if len(dl) != 1:
-            raise AnchorMissing("the field of `%s` that records the leaked source buffers (raw pointer entries) cannot be identified: %s" % (T, dl))
-        self.drop_list = dl[0]
+        # a redesigned ownership scheme (an owning arena type, boxes instead of raw parts) has no such field: only the rules that
+        # are about the (ptr, len, capacity) protocol become undecided, the others still run
+        self.drop_list = dl[0] if len(dl) == 1 else None
+        self.drop_list_missing = None if len(dl) == 1 else \
+            "the field of `%s` that records the leaked source buffers (raw pointer entries) cannot be identified: %s" % (T, dl)
         docs = [n for n, t in ft.items() if "OperationDocument" in t or any(ap.startswith(L) and ap in t and any("OperationDocument" in x for x in a.field_types().values())
                                                                              for ap, a in P.adts.items() if a.kind == "Struct")]
         docs = [n for n in docs if n != self.drop_list]
@@ -56,6 +58,19 @@ class Loader:
         if len(drops) != 1:
             raise AnchorMissing("`impl Drop for %s` not found" % T)
         self.drop = drops[0]
+        # ADTs of the crate owned by a task (its field types, transitively) and the Drop impls that run when a task is dropped
+        owned, todo = {T}, [self.task]
+        while todo:
+            a = todo.pop()
+            if a.kind != "Struct":
+                continue
+            for t in a.field_types().values():
+                for bp, b in P.adts.items():
+                    if bp.startswith(L) and bp not in owned and bp in t and bp != self.tasks.path:
+                        owned.add(bp)
+                        todo.append(b)
+        self.owned = owned
+        self.owner_drops = {f.path for f in P.trait_impls("core::ops::drop::Drop", "drop") if f.self_adt in owned}
         self.reg = P.fn(T + "::register_file")
         self.new = P.fn(T + "::new", required=False)
         self.abi = {f.name: f for f in P.fns.values() if f.crate == LC and f.no_mangle and f.abi and f.abi.startswith("C") and "::tests" not in f.path}
@@ -193,11 +208,15 @@ def r19a(P, R):
         args = x.get("args", [])
         if c == STR_FRP and f.crate in free_abi and len(args) == 3:
             pv = Prov(f)
-            if only_via(P, f.path, {ld.drop.path}):
+            if only_via(P, f.path, ld.owner_drops):
                 cls, why = "task-drop-free:" + f.crate, "rebuilds a leaked source buffer from its recorded parts; reachable only from `impl Drop for Task`"
             elif free_abi[f.crate] and only_via(P, f.path, set(free_abi[f.crate])) and lit_value(args[1]) == "0" \
                     and all(any(a[0] == "param" for a in pv.atoms(e)) for e in (args[0], args[2])):
                 cls, why = "abi-free-string:" + f.crate, "rebuilds the String leaked by alloc_string (len 0, capacity = requested) to free it; reachable only from the `free_string` export"
+        elif c in ("alloc::boxed::Box::from_raw", "alloc::vec::Vec::from_raw_parts") and f.crate == LC and args and only_via(P, f.path, ld.owner_drops):
+            pv = Prov(f)
+            if any(a[0] == "field" and a[1] in ld.owned for a in pv.atoms(args[0])):
+                cls, why = "task-drop-free:" + f.crate, "rebuilds a leaked source buffer recorded in an object the task owns; reachable only from the Drop of that owner"
         elif c == SLICE_FRP and f.crate in host_copy_crates:
             pv = Prov(f)
             copied = [y for y in f.walk() if y.get("k") == "MethodCall" and y["method"] in ("to_vec", "to_owned", "into_boxed_slice")
@@ -255,6 +274,8 @@ def _strip(e):
 
 def r19b(P, R):
     ld = Loader(P)
+    if ld.drop_list is None:
+        raise AnchorMissing(ld.drop_list_missing)
     T, reg, drop, dl = ld.task.path, ld.reg, ld.drop, ld.drop_list
     # who modifies the drop list: only registration and Drop (and what they delegate to)
     mutators = set()
@@ -410,6 +431,26 @@ def r19c(P, R):
     freeing = {p for p, f in P.fns.items() if f.crate == LC and _live(f) and any(c == STR_FRP for c in P.callees_of(f)[1])}
     freeing |= {p for p, f in P.fns.items() if f.crate == LC and _live(f) and p != drop.path and P.reachable([f]) & freeing}
     frees = mq.calls_to(lambda p: p == STR_FRP or p in freeing)
+    if not frees:
+        # the buffers are freed by the Drop of an object the task owns (an arena field): that runs after Task::drop returns, field by
+        # field in declaration order.  The documents are gone by then iff Task::drop clears them on every path, or their field is
+        # declared before the owner of the buffers.
+        sub_drops = [P.fns[p] for p in sorted(ld.owner_drops) if p != drop.path and any(
+            k == "raw" and ("from_raw" in c) for f_, k, c, x in unsafe_ops(P) if f_.path == p or (f_.crate == LC and only_via(P, f_.path, {p})))]
+        if sub_drops:
+            order = ld.task.fields()
+            owner_fields = [n for n, t in ld.task.field_types().items() if any(g.self_adt and g.self_adt in t for g in sub_drops)]
+            clears0 = mq.calls_to(lambda p: p.endswith("HashMap::clear") or p.endswith(("mem::take", "mem::replace")))
+            docs_cleared = bool(clears0) and all(any(mq.dominates(c, r) for c in clears0) for r in mq.returns()) and any(
+                c.get("k") == "MethodCall" and c["method"] == "clear" and c["recv"].get("k") == "Field" and c["recv"]["field"] == ld.docs for c in drop.walk())
+            declared_first = bool(owner_fields) and all(order.index(ld.docs) < order.index(n) for n in owner_fields)
+            if docs_cleared or declared_first:
+                R.holds("R19-c", "clear-before-free", "the buffers are freed by the Drop of `%s`, after %s" % (
+                    "/".join(owner_fields) or "an owned object", ("Task::drop cleared %s on every path" % ld.docs) if docs_cleared else ("%s, declared earlier, was dropped" % ld.docs)), loc=drop.loc())
+            else:
+                R.violated("R19-c", "clear-before-free", "the source buffers are freed by the Drop of `%s`, which is declared before %s, and Task::drop does not clear %s on "
+                           "every path: the parsed documents still borrow the freed text when they are dropped" % ("/".join(owner_fields) or "an owned object", ld.docs, ld.docs), loc=drop.loc())
+            return
     R.floor("R19-c", "free sites in Drop", len(frees), 1)
     # what releases the parsed documents (they borrow the buffers): clear() of the documents map, or taking/replacing it
     clearing = {p for p, f in P.fns.items() if f.crate == LC and _live(f) and p != drop.path and any(
@@ -485,7 +526,11 @@ def r19d(P, R):
         gi = next(i for i, (x, _) in enumerate(acc) if x is gets[0])
         par = acc[acc[gi][1]][0] if acc[gi][1] >= 0 else {}
         trap = par.get("k") == "MethodCall" and par.get("recv") is gets[0] and par["method"] in ("unwrap", "expect", "unwrap_unchecked")
-        tn = any(norm(x.get("def", "") or x.get("variant", "") or "").endswith("LoaderError::TaskNotFound") for x in f.walk() if x.get("k") in ("Path", "Struct"))
+        def mentions_not_found(g):
+            return any(norm(x.get("def", "") or x.get("variant", "") or "").endswith("LoaderError::TaskNotFound") for x in g.walk() if x.get("k") in ("Path", "Struct"))
+        # the error is made here, or by the accessor itself when that one already returns a Result (then `?` carries it)
+        callee = P.fns.get(call_name(gets[0]) or "")
+        tn = mentions_not_found(f) or (callee is not None and (callee.sig_output or "").startswith("core::result::Result<") and mentions_not_found(inlined(P, callee)))
         if trap:
             R.violated("R19-d", "not-found:" + name, "%s unwraps the task lookup: an unknown or freed id traps instead of giving an error result" % f0.path, loc=f0.loc())
         elif not tn:
